@@ -439,6 +439,22 @@ def r10(run, db):
             run.check(inside, nm + "|world-listeners-snapshot-under-entry", "the scope / all-scopes listeners are read inside the critical section of the membership change",
                       "%s reads the scope / all-scopes listeners (%s) after the group entry was released: the membership change is already visible, so who is told depends on monitor_scope / demonitor_scope calls that happen after it" % (nm, c.name.split("::")[-1]), c.where())
     run.anchor("world-listener read sites", n, 3)
+    # per-group listeners: the list used for the notification is the clone taken inside the critical section; the three
+    # functions (and their closures) never look the group up again afterwards
+    for nm in ("join_scoped", "leave_scoped", "leave_all"):
+        f = pg_fn(db, nm)
+        acqs = [a for a in acquisitions(f) if a.kind == "dashmap:entry" and not a.transient and any("map" in i for i in a.lock_ids)]
+        mem = [c for c in f.calls() if c.matches(r"HashMap::<K, V, S, A>::(insert|remove)$") and gs["members"] in field_names(f, c.args[0])]
+        crit = [a for a in acqs if any(c.site in a.held for c in mem)]
+        late = []
+        for g in db.family(f.id):
+            for c in g.calls():
+                if c.matches(r"DashMap::<K, V, S>::(get|get_mut|iter|iter_mut)$"):
+                    ids = " ".join(__import__("rules.locks", fromlist=["lock_identity"]).lock_identity(g, c.args[0]))
+                    if re.search(r"\.map$|\.map\b", ids) and "world" not in ids:
+                        late.append(c)
+        run.check(not late, nm + "|group-listeners-snapshot-under-entry", "%s takes the group's listeners only inside the critical section (no later lookup of the group)" % nm,
+                  "%s looks the group up again (%s) after the membership change: the per-group listeners are then whoever monitors at send time, not at the time of the change" % (nm, [c.fn.id.split("::")[-1] for c in late]), (late[0].where() if late else f.where()))
 
 
 Q = ["dflt"]
